@@ -259,7 +259,9 @@ pub fn raw_run() {
 
 // ---------------------------------------------------------------------------------------------
 
-struct BufRun;
+struct BufRun {
+    short: bool,
+}
 
 impl TransportFn<()> for BufRun {
     fn call<T: Transport + 'static>(self, t: T) {
@@ -275,6 +277,9 @@ impl TransportFn<()> for BufRun {
         let mut held: Vec<RxBuffer> = Vec::new();
         let mut nframes = 0u64;
         let mut received = 0u64;
+        // buffers taken out of circulation because the device reported a used length shorter
+        // than the header (the driver returns an error and gives the buffer up)
+        let mut lost = 0usize;
         let n_ops = 10 + choose(150);
         for _ in 0..n_ops {
             if violated() {
@@ -302,6 +307,19 @@ impl TransportFn<()> for BufRun {
                     let r = net.receive();
                     match (r, exp) {
                         (Err(Error::NotReady), None) => {}
+                        (r, Some(rec)) if rec.short => {
+                            with(|w| {
+                                w.personality::<NetDev>().delivered.pop_front();
+                            });
+                            oplog(|| format!("receive of a delivery with a used length below the header -> {:?}", r.as_ref().map(|b| b.packet_len())));
+                            match r {
+                                Err(_) => lost += 1,
+                                Ok(b) => {
+                                    violation("net-short-length-accepted", "receive", format!("used length shorter than the {hl}-byte header, yet receive() returned a packet of {} bytes", b.packet_len()));
+                                    held.push(b);
+                                }
+                            }
+                        }
                         (Ok(b), Some(rec)) => {
                             with(|w| {
                                 w.personality::<NetDev>().delivered.pop_front();
@@ -347,14 +365,14 @@ impl TransportFn<()> for BufRun {
                 }
             }
             let (post, done) = with(|w| (posted(w, 0), w.personality::<NetDev>().delivered.len()));
-            if post + done + held.len() != NET_QS && !violated() {
+            if post + done + held.len() + lost != NET_QS && !violated() {
                 violation(
                     "net-rx-conservation",
                     "receiveq",
-                    format!("{post} posted + {done} completed-unconsumed + {} held by the caller != QUEUE_SIZE {NET_QS}", held.len()),
+                    format!("{post} posted + {done} completed-unconsumed + {} held by the caller + {lost} given up after malformed lengths != QUEUE_SIZE {NET_QS}", held.len()),
                 );
             }
-            if held.is_empty() && done == 0 && post == NET_QS && received > NET_QS as u64 {
+            if held.is_empty() && done == 0 && post + lost == NET_QS && received > NET_QS as u64 {
                 nontrivial();
             }
             op_point();
@@ -364,14 +382,25 @@ impl TransportFn<()> for BufRun {
             let _ = net.recycle_rx_buffer(b);
         }
         let (post, done) = with(|w| (posted(w, 0), w.personality::<NetDev>().delivered.len()));
-        if post + done != NET_QS && !violated() {
-            violation("net-rx-conservation", "finish", format!("after recycling everything {post} posted + {done} completed != QUEUE_SIZE {NET_QS}"));
+        if post + done + lost != NET_QS && !violated() {
+            violation("net-rx-conservation", "finish", format!("after recycling everything {post} posted + {done} completed + {lost} given up != QUEUE_SIZE {NET_QS}"));
         }
         drop(net);
     }
 }
 
 pub fn buf_run() {
+    buf(false)
+}
+
+/// Managed driver against a NIC that now and then reports a used length shorter than the
+/// virtio-net header (C07): the driver must fail that receive cleanly and keep its buffer
+/// bookkeeping and the platform ledger intact.
+pub fn buf_run_short_len() {
+    buf(true)
+}
+
+fn buf(short: bool) {
     let tk = [TKind::Model, TKind::ModelLegacy, TKind::MmioModern, TKind::MmioLegacy, TKind::Pci, TKind::ModelPciLike][choose(6) as usize];
     crate::scen::queue::draw_device_policy();
     crate::scen::queue::draw_sharing_mode();
@@ -380,9 +409,13 @@ pub fn buf_run() {
         feats &= !F_VERSION_1;
     }
     zoo::setup_device(Kind::Net, feats, Kind::Net.default_config());
-    with(|w| w.dev = Some(Box::new(NetDev::new())));
+    with(|w| {
+        let mut d = NetDev::new();
+        d.short_len = short;
+        w.dev = Some(Box::new(d));
+    });
     oplog(|| format!("VirtIONet over {tk:?} features {feats:#x} policy {:?}", with(|w| (w.cfg.serve, w.cfg.suppress))));
-    if let Err(e) = zoo::with_transport(tk, BufRun) {
+    if let Err(e) = zoo::with_transport(tk, BufRun { short }) {
         violation("transport-construction-failed", "zoo", e);
     }
 }
